@@ -66,22 +66,27 @@ def gen_stream(rng, tid, scope):
             info["regions"].append({"at": i, "inside": nin, "depth": d})
     clock += 1
     evs.append([clock, "OHe", b"", False])
-    # distance (in events) from each region end to the nearest earlier event
-    # with a strictly smaller clock than the region minimum
+    # Look-back each region needs, measured on the stream as ovnisort sees
+    # it: regions are processed in order and every earlier region has already
+    # been sorted into place when the next one is reached (an event that an
+    # earlier region moved backwards no longer "blocks" the search).
+    cur = [list(e) for e in evs]
     need = 0
     k = 0
-    while k < len(evs):
-        if evs[k][1] == "OU[":
+    while k < len(cur):
+        if cur[k][1] == "OU[":
             j = k + 1
-            while evs[j][1] != "OU]":
+            while cur[j][1] != "OU]":
                 j += 1
             if j > k + 1:
-                cmin = min(e[0] for e in evs[k + 1:j])
+                cmin = min(e[0] for e in cur[k + 1:j])
                 b = j - 1
                 back = 0
-                while b >= 0 and evs[b][0] >= cmin:
+                while b >= 0 and cur[b][0] >= cmin:
                     b -= 1; back += 1
                 need = max(need, back)
+                first = max(b, 0)
+                cur[first:j] = sorted(cur[first:j], key=lambda e: e[0])
             k = j
         k += 1
     info["need"] = need
